@@ -1,12 +1,14 @@
 import LenaModel.DriverUtil
 import LenaModel.Model.C04
 import LenaModel.Model.C04Spec
+import LenaModel.Model.C04Nest
 /-! Model driver for C04.
 
 Values in cells and data: int | "str" | [list] | {"t":[tuple]} | {"d":{dict}} | {"q":[n,d]}.
 Input item:  {"d": int | {"cell": k}, "c": null | k}     (k: serial of an upstream object, namespace 0)
 with "heap": {"<k>": value} giving the content of every upstream object.
 Branch spec: {"kind":"source"|"fc"|"fr"|"seq","steps":[step..],"term":acc,"n":k}
+  | {"kind":"nest","ctype":"fc"|"fr","copy_buf":bool,"inner":[branch spec (not nested)..]}   a Split given directly as a branch
   step: {"s":"var"|"mkfn"|"tag"|"count","name":..} | {"s":"upd","key":..,"v":i} | {"s":"app"|"touch"|"touchc","v":i}
         | {"s":"setd","key":..,"v":i} | {"s":"stop","n":k} | {"s":"emit"}
   acc:  {"a":"sum"|"dsum"|"histogram"|"nphist"|"store"|"keeplast"|"reqsum"|"reqstore"} | {"a":"count","name":..}
@@ -241,7 +243,7 @@ def fillFlags (i : Nat) : List (Ev Skel Value) → List Json
 /-- equality of skeletons (immutable data): equality of their printed forms -/
 def skelEq (a b : Skel) : Bool := toString (repr a) == toString (repr b)
 
-def checkRun (brs : List (Branch HSt Skel Value)) (bufsize : Option Nat) (copyBuf : Bool) (st0 : Store Value)
+def checkRun {σ : Type} (brs : List (Branch σ Skel Value)) (bufsize : Option Nat) (copyBuf : Bool) (st0 : Store Value)
     (flow : List HItem) : Json :=
   let tr := (Split.runTrace { branches := brs, bufsize := bufsize, copyBuf := copyBuf } st0 flow).1
   let bl := Lena.C03.blocks bufsize flow
@@ -253,8 +255,8 @@ def checkRun (brs : List (Branch HSt Skel Value)) (bufsize : Option Nat) (copyBu
       ("alone", Json.arr (plainOuts alone).toArray), ("fills", Json.arr (fillFlags b.id tr).toArray)])
   Json.mkObj [("disjoint", Json.bool (decide ((tr.map handCells).Pairwise Disj))), ("branches", Json.arr per.toArray)]
 
-def checkFill (fill1 : HItem → World Value → List (Branch HSt Skel Value) → FillAllRes HSt Skel Value)
-    (brs : List (Branch HSt Skel Value)) (st0 : Store Value) (flow : List HItem) (req : Req Skel)
+def checkFill {σ : Type} (fill1 : HItem → World Value → List (Branch σ Skel Value) → FillAllRes σ Skel Value)
+    (brs : List (Branch σ Skel Value)) (st0 : Store Value) (flow : List HItem) (req : Req Skel)
     (ev : Nat → Ev Skel Value) : Json :=
   let f := fillFlow fill1 { st := st0, cc := 0 } brs flow
   let tr := f.evs
@@ -285,13 +287,14 @@ def errWrap {σ : Type} (ops : Ops σ Skel Value) : Ops σ Skel Value :=
       | _, _ => a
     refs := ops.refs }
 
-def handleSplit (j : Json) : Json :=
-  match (arr? (getD j "branches")).bind (fun a => a.toList.mapM bspecOf), heapOf (getD j "heap"),
-      itemsOf (getD j "flow"), bool? (getD j "copy_buf"), str? (getD j "mode") with
-  | some specs, some st0, some flow, some copyBuf, some mode =>
+/-- the run of a split case on the branch list `brs` (branches of the harness, or — `mkBranchesN` — also nested
+`Split`s), rendered -/
+def runSplitCase {σ : Type} (brs : List (Branch σ Skel Value)) (j : Json) : Json :=
+  match heapOf (getD j "heap"), itemsOf (getD j "flow"), bool? (getD j "copy_buf"), str? (getD j "mode") with
+  | some st0, some flow, some copyBuf, some mode =>
     let bs := getD j "bufsize"
     let bufsize : Option Nat := if bs.isNull then none else nat? bs
-    let brs := mkBranches 0 specs
+    let allFr := brs.all (fun b => b.kind == .fillRequest)
     let res : List HItem × Store Value × Bool :=
       match mode with
       | "run" =>
@@ -299,12 +302,10 @@ def handleSplit (j : Json) : Json :=
         (r.1, r.2, false)
       | "fill" =>
         let f := fillFlow (splitFill copyBuf) { st := st0, cc := 0 } brs flow
-        let allFr := specs.all (fun s => s.kind == .fillRequest)
         let c := collect (if allFr then .request else .compute) (if allFr then Ev.request else Ev.compute) f.w.st f.brs
         (outputs c.1, c.2.1, f.stopped)
       | _ =>
         let f := fillFlow zipFill { st := st0, cc := 0 } brs flow
-        let allFr := specs.all (fun s => s.kind == .fillRequest)
         let c := collect (if allFr then .request else .compute) (if allFr then Ev.request else Ev.compute) f.w.st f.brs
         (outputs c.1, c.2.1, f.stopped)
     let rf := renderItems res.2.1 [] flow
@@ -316,11 +317,9 @@ def handleSplit (j : Json) : Json :=
       | "run" => (Split.run { branches := brsE, bufsize := bufsize, copyBuf := copyBuf } st0 flow).2
       | "fill" =>
         let f := fillFlow (splitFill copyBuf) { st := st0, cc := 0 } brsE flow
-        let allFr := specs.all (fun s => s.kind == .fillRequest)
         (collect (if allFr then .request else .compute) (if allFr then Ev.request else Ev.compute) f.w.st f.brs).2.1
       | _ =>
         let f := fillFlow zipFill { st := st0, cc := 0 } brsE flow
-        let allFr := specs.all (fun s => s.kind == .fillRequest)
         (collect (if allFr then .request else .compute) (if allFr then Ev.request else Ev.compute) f.w.st f.brs).2.1
     let raised : Json := match stE errTok with
       | .str e => Json.str e
@@ -330,15 +329,34 @@ def handleSplit (j : Json) : Json :=
         match mode with
         | "run" => checkRun brs bufsize copyBuf st0 flow
         | "fill" =>
-          let allFr := specs.all (fun s => s.kind == .fillRequest)
-          checkFill (splitFill copyBuf) brs st0 flow (if allFr then .request else .compute) (if allFr then Ev.request else Ev.compute)
+            checkFill (splitFill copyBuf) brs st0 flow (if allFr then .request else .compute) (if allFr then Ev.request else Ev.compute)
         | _ =>
-          let allFr := specs.all (fun s => s.kind == .fillRequest)
-          checkFill zipFill brs st0 flow (if allFr then .request else .compute) (if allFr then Ev.request else Ev.compute)
+            checkFill zipFill brs st0 flow (if allFr then .request else .compute) (if allFr then Ev.request else Ev.compute)
       else Json.null
     Json.mkObj [("flow", Json.arr rf.2.toArray), ("outs", Json.arr ro.2.toArray), ("stopped", Json.bool res.2.2),
       ("check", chk), ("raised", raised)]
-  | _, _, _, _, _ => err "bad split args"
+  | _, _, _, _ => err "bad split args"
+
+def nspecOf (j : Json) : Option BSpecN := do
+  match str? (getD j "kind") with
+  | some "nest" =>
+    let kind ← kindOf (← str? (getD j "ctype"))
+    let inner ← (← arr? (getD j "inner")).toList.mapM bspecOf
+    some (.nest { kind := kind, copyBuf := ← bool? (getD j "copy_buf"), inner := inner })
+  | _ => (bspecOf j).map BSpecN.leaf
+
+def handleSplit (j : Json) : Json :=
+  match arr? (getD j "branches") with
+  | none => err "bad split args"
+  | some a =>
+    if a.toList.any (fun b => str? (getD b "kind") == some "nest") then
+      match a.toList.mapM nspecOf with
+      | some specs => runSplitCase (mkBranchesN 0 specs.length specs) j
+      | none => err "bad split args"
+    else
+      match a.toList.mapM bspecOf with
+      | some specs => runSplitCase (mkBranches 0 specs) j
+      | none => err "bad split args"
 
 structure HistSt (σ : Type) where
   st : Store Value
